@@ -28,6 +28,11 @@ def reps(lo, hi):
 
 
 def run(prog, chk):
+    fanout_tables(prog, chk)
+    _run(prog, chk)
+
+
+def _run(prog, chk):
     chk.explanation = (
         "(R6) every KSI_Config_consolidate<Field> of net_ha.c is evaluated abstractly (range predicates, KSI_Integer_getUInt64 and "
         "KSI_Integer_compare inlined from their own CFG) for consolidated value {absent, in-range values} x pushed value {absent, 0, "
@@ -118,3 +123,119 @@ def run(prog, chk):
             okw = okw and ok_return_witness(fw, guard=g_ok("KSI_Config_consolidate" + suffix)) is None
         chk.ob("C15.wiring", "consolidateConfig:" + suffix, okw,
                "the %s consolidation runs on (consolidated, pushed) configuration before KSI_OK is returned" % suffix, loc=fw.loc(), fn=fw)
+
+
+# ---------------------------------------------------------------------- request fan-out and completion (R6 decision tables)
+def fanout_tables(prog, chk):
+    import itertools
+    from ksirules.interp import TOP, Interp, Ptr, list_overrides, succeed_model
+    from ksirules.model import AnalysisBroken, lvalue_key, strip
+    chk.rule("C15.fanout", "a request is counted once per endpoint that accepted it; it waits iff at least one accepted", floor=6)
+    chk.rule("C15.complete", "first valid response completes the request, later ones are discarded, an error completes it only when no "
+                             "endpoint is left to answer (decision tables of the response handlers)", floor=12)
+    K = prog.const
+    WAIT, ERRS, RECV = K("KSI_ASYNC_STATE_WAITING_FOR_RESPONSE"), K("KSI_ASYNC_STATE_ERROR"), K("KSI_ASYNC_STATE_RESPONSE_RECEIVED")
+    SN = {WAIT: "WAITING", ERRS: "ERROR", RECV: "RESPONSE_RECEIVED"}
+
+    # ---- fan-out
+    fa = prog.fn("KSI_HighAvailabilityService_addRequest", "net_ha.c")
+    hp, rp = fa.params[0]["n"], fa.params[1]["n"]
+    REJ = K("KSI_ASYNC_REQUEST_CACHE_FULL")
+    for nsvc in (1, 2, 3):
+        for outcome in itertools.product((0, REJ), repeat=nsvc):
+            lists = {"SVCS": [Ptr("svc%d" % k) for k in range(nsvc)]}
+            length, element_at = list_overrides(lists)
+            inputs = {hp: Ptr("has"), rp: Ptr("H"), "has->ctx": Ptr("ctx"), "has->services": Ptr("SVCS"), "H->aggrReq": Ptr("areq"), "H->extReq": 0}
+
+            def add(I, p, node, args, outcome=outcome):
+                a = args[0]
+                if isinstance(a, Ptr) and a.what.startswith("svc"):
+                    return outcome[int(a.what[3:])]
+                return TOP
+
+            def hanew(I, p, node, args):
+                I.write(p, lvalue_key(strip(node["a"][2])["e"], I.fn), Ptr("HAREQ"))
+                I.write(p, "HAREQ->expectedRespCount", 0)
+                return 0
+            ov = {"KSI_AsyncServiceList_length": length, "KSI_AsyncServiceList_elementAt": element_at, "KSI_AsyncService_addRequest": add,
+                  "KSI_HighAvailabilityRequest_new": hanew, "KSI_HighAvailabilityRequest_ref": lambda I, p, n, a: a[0],
+                  "KSI_AsyncHandle_ref": lambda I, p, n, a: a[0]}
+            I = Interp(fa, inputs=inputs, call_model=succeed_model(prog, ov), on_unknown="stop", prog=prog, loop_bound=nsvc + 3)
+            paths = I.run()
+            chk.paths += len(paths)
+            inst = "addRequest[%s]" % ",".join("accepts" if o == 0 else "rejects" for o in outcome)
+            if len(paths) != 1 or paths[0].undetermined:
+                raise AnalysisBroken("HA addRequest: evaluation not determined for %s: %s" % (inst, [q.undetermined[:1] for q in paths]))
+            q = paths[0]
+            cnt = [t[2] for t in q.stores("HAREQ->expectedRespCount")]
+            final = cnt[-1] if cnt else 0
+            acc = sum(1 for o in outcome if o == 0)
+            st = [t[2] for t in q.stores("H->state")]
+            offered = [c[2][0].what for c in q.calls("KSI_AsyncService_addRequest") if isinstance(c[2][0], Ptr)]
+            ok = final == acc and offered == ["svc%d" % k for k in range(nsvc)] and \
+                ((acc > 0 and q.ret == 0 and st[-1:] == [WAIT]) or (acc == 0 and q.ret == REJ and not st))
+            chk.ob("C15.fanout", inst, ok,
+                   "expected: offered to all %d endpoints, %d expected responses, %s; source: offered to %s, expected-response count %s, state stores %s, status %s"
+                   % (nsvc, acc, "waiting, KSI_OK" if acc else "refused with the endpoint's error", offered, final, [SN.get(s, s) for s in st],
+                      hex(q.ret) if isinstance(q.ret, int) else q.ret), loc=fa.loc(), fn=fa)
+
+    # ---- response handlers
+    def drive(fn, state, count):
+        hn, rn = fn.params[0]["n"], fn.params[1]["n"]
+        inputs = {hn: Ptr("has"), rn: Ptr("R"), "has->ctx": Ptr("ctx"), "has->respQueue": Ptr("RQ"), "HAREQ->expectedRespCount": count,
+                  "HAREQ->asyncHandle": Ptr("H"), "H->state": state, "H->err": 0x405 if state == ERRS else 0, "H->errMsg": 0, "R->err": 0x406, "R->errMsg": 0,
+                  "R->respCtx": Ptr("RESPCTX"), "H->respCtx": 0, "HAREQ->hasReq": 1}
+
+        def getctx(I, p, node, args):
+            I.write(p, lvalue_key(strip(node["a"][1])["e"], I.fn) if strip(node["a"][1]).get("k") == "un" else "haRequest", Ptr("HAREQ"))
+            return 0
+
+        def getstate(I, p, node, args):
+            out = strip(node["a"][1])
+            I.write(p, lvalue_key(out["e"], I.fn), I.read(p, "%s->state" % args[0].what) if isinstance(args[0], Ptr) else TOP)
+            return 0
+        ov = {"KSI_AsyncHandle_getRequestCtx": getctx, "KSI_AsyncHandle_getState": getstate, "KSI_AsyncHandle_ref": lambda I, p, n, a: a[0],
+              "KSI_Utf8String_ref": lambda I, p, n, a: a[0]}
+        I = Interp(fn, inputs=inputs, call_model=succeed_model(prog, ov), on_unknown="stop", prog=prog)
+        paths = I.run()
+        chk.paths += len(paths)
+        if len(paths) != 1 or paths[0].undetermined:
+            raise AnalysisBroken("%s: evaluation not determined for state %s count %d: %s" % (fn.name, SN[state], count, [q.undetermined[:1] for q in paths]))
+        q = paths[0]
+        cnt = [t[2] for t in q.stores("HAREQ->expectedRespCount")]
+        st = [t[2] for t in q.stores("H->state")]
+        app = [c for c in q.calls("KSI_AsyncHandleList_append") if c[2][0] == Ptr("RQ") and c[2][1] == Ptr("H")]
+        notice = q.calls("KSI_HighAvailabilityService_reportErrorNotice")
+        errs = [t[2] for t in q.stores("H->err")]
+        resp = [t[2] for t in q.stores("H->respCtx")]
+        return q, cnt, st, app, notice, errs, resp
+
+    fr = prog.fn("handleReqResponse", "net_ha.c")
+    fe = prog.fn("handleErrorResponse", "net_ha.c")
+    for state, count in itertools.product((WAIT, ERRS, RECV), (1, 2)):
+        q, cnt, st, app, notice, errs, resp = drive(fr, state, count)
+        if state in (WAIT, ERRS):
+            want = "completed with this response: state RESPONSE_RECEIVED, response context taken over, queued once" + (", earlier error reported as a notice and cleared" if state == ERRS else "")
+            ok = cnt == [count - 1] and st == [RECV] and len(app) == 1 and resp == [Ptr("RESPCTX")] and q.ret == 0 and \
+                ((state == ERRS and len(notice) == 1 and errs[-1:] == [0]) or (state == WAIT and not notice))
+        else:
+            want = "discarded: the request was completed by an earlier response (no state change, not queued again, response context not replaced)"
+            ok = cnt == [count - 1] and not st and not app and not resp and q.ret == 0
+        chk.ob("C15.complete", "valid-response[request %s,%d outstanding]" % (SN[state], count), ok,
+               "expected %s; source: outstanding %s, state stores %s, queued %d, notices %d, response context stores %s, status %s"
+               % (want, cnt, [SN.get(s, s) for s in st], len(app), len(notice), resp, q.ret), loc=fr.loc(), fn=fr)
+    for state, count in itertools.product((WAIT, ERRS, RECV), (1, 2)):
+        q, cnt, st, app, notice, errs, resp = drive(fe, state, count)
+        last = count - 1 == 0
+        if state == WAIT:
+            want = "error recorded on the request" + (", request completed with it (no endpoint left)" if last else ", request keeps waiting")
+            ok = cnt == [count - 1] and st == [ERRS] and errs == [0x406] and not notice and len(app) == (1 if last else 0) and q.ret == 0
+        elif state == ERRS:
+            want = "reported as a separate error notice" + (", request completed with the recorded error (no endpoint left)" if last else ", request keeps waiting")
+            ok = cnt == [count - 1] and not st and not errs and len(notice) == 1 and len(app) == (1 if last else 0) and q.ret == 0
+        else:
+            want = "reported as a separate error notice only; the completed request is not touched and not queued again"
+            ok = cnt == [count - 1] and not st and not errs and len(notice) == 1 and not app and q.ret == 0
+        chk.ob("C15.complete", "error-response[request %s,%d outstanding]" % (SN[state], count), ok,
+               "expected %s; source: outstanding %s, state stores %s, error stores %s, queued %d, notices %d, status %s"
+               % (want, cnt, [SN.get(s, s) for s in st], errs, len(app), len(notice), q.ret), loc=fe.loc(), fn=fe)
